@@ -17,6 +17,7 @@ pub mod c12;
 pub mod c13;
 pub mod c14;
 pub mod c15;
+pub mod c16;
 pub mod c19;
 
 pub fn dispatch(ctx: &mut Ctx) -> bool {
@@ -36,6 +37,7 @@ pub fn dispatch(ctx: &mut Ctx) -> bool {
 		"C13" => c13::run(ctx),
 		"C14" => c14::run(ctx),
 		"C15" => c15::run(ctx),
+		"C16" => c16::run(ctx),
 		"C19" => c19::run(ctx),
 		_ => return false,
 	}
@@ -62,6 +64,7 @@ pub fn confirm(key: &str) -> Option<Option<String>> {
 		"C13" => c13::confirm(key),
 		"C14" => c14::confirm(key),
 		"C15" => c15::confirm(key),
+		"C16" => c16::confirm(key),
 		"C19" => c19::confirm(key),
 		_ => None,
 	}
